@@ -3,8 +3,12 @@
 P: coq/theories/Props/C04_lower.v and Props/C16_layout.v over Lower/{Ast,Model,ModelTypes,ModelExpr,ModelStmt}.v, a literal,
    fuelled transcription of EVERY function of compiler/parser/lower.rs (+ stmt_from_expr_top / into_then_expr of
    ast/statement.rs) over the parser model's tree and a token table (kind, start, length, text): no construct is left
-   `Unsupported`.  Theorems: totality with fuel 2 * tsize(tree) for every tree and table (no Panic, no OutOfFuel), spans of the
-   result inside the token range, parentheses transparent, trivia invisible (see the Props files).
+   `Unsupported`.  C04_lower_total (every tree, every table: fuel 2 * tsize(tree) suffices, no index / unwrap panics),
+   C04_parse_then_lower_total, C04_lower_errors_in_range / _spans_from_tokens / _spans_in_text / _spans_on_char_boundaries
+   (both ends of every span of the AST are 0 or token boundaries; with C13_tiling: character boundaries inside the text),
+   C16_parens_transparent (+ _fuel, _paren_is_sequence_of_content), C16_lower_fuel_monotone, C16_trivia_invisible /
+   C16_front_total (parser + lowering depend on kinds, line-break bits, adjacency and texts of the syntax tokens only),
+   C16_newline_inside_brackets_refuted (witness replayed on the real parser below).
 C: the real `parser::parse_program` (harness/lang/src/bin/lower_run.rs) vs the extracted model (ocaml/lower_drv.ml) FED WITH THE
    REAL CST AND TOKEN LIST of the same text (the parser model itself is compared with parse_cst by checks/C04.py on the same
    streams): the whole Program as an s-expression with every Location (span + path bit), operator span, symbol text.
@@ -200,6 +204,8 @@ PAREN_CLASSES = {"F66": "paren-lambda-union-param-one-tuple", "F67": "typed-lamb
 PAREN_WITNESSES = [("F66", "| x : float | string , y : float | y * 1.0", "is_tuple_expr toggles in_lambda at the `|` of a union type"),
                    ("F67", "| x : float | x", "is_type_ident_after_pipe takes the closing bar of the parameter list for a union bar")]
 TYPE_END = {"FloatType", "IntegerType", "StringType", "Ident", "ParenEnd", "ArrayEnd", "BlockEnd"}
+IN_TYPE = {"FloatType", "IntegerType", "StringType", "Ident", "IdentParameter", "DoubleColon", "ParenBegin", "ParenEnd", "ArrayBegin",
+           "ArrayEnd", "BlockBegin", "BlockEnd", "Comma", "Arrow", "BackQuote", "LambdaArgBeginEnd"}
 AFTER_TYPE_IDENT = {"LambdaArgBeginEnd", "Comma", "ParenEnd", "BlockEnd", "ArrayEnd", "Arrow"}
 
 
@@ -248,8 +254,8 @@ def typed_lambda_ident_body_before_closer(d):
     ks = syntax_kinds(d)
     for i in range(1, len(ks) - 1):
         if ks[i] == "LambdaArgBeginEnd" and ks[i + 1] == "Ident" and ks[i - 1] in TYPE_END and (i + 2 >= len(ks) or ks[i + 2] in AFTER_TYPE_IDENT):
-            j = i - 1
-            while j >= 0 and ks[j] != "LambdaArgBeginEnd":
+            j = i - 1      # back over the tokens of the annotation (the bars of a union type included) to its colon
+            while j >= 0 and (ks[j] in IN_TYPE or ks[j] == "Colon"):
                 if ks[j] == "Colon":
                     return True
                 j -= 1
@@ -515,6 +521,8 @@ def run_part(ck, quick=True, only_texts=None):
         for j, (e, d0, d1) in enumerate(zip(es, plain, wrapped)):
             if not d0 or not d1 or "a" not in d0 or "a" not in d1 or d0["ne"]:
                 continue
+            if [len(ch) for k, ch in sexp_nodes(d0["s"]) if k == "Program"] != [2]:
+                continue        # e is not ONE expression (`x (y)` after a prefix form is two statements on one line)
             npar += 1
             if d1["ne"] == 0 and erase_spans(d0["a"]) == erase_spans(d1["a"]):
                 if j < len(PAREN_WITNESSES):
@@ -532,6 +540,15 @@ def run_part(ck, quick=True, only_texts=None):
                                     "redundant parentheses around an initialiser change the AST (spans erased) or make it a parse error"))
         cov["paren_pairs_compared"] = npar
         cov["paren_pairs_in_recorded_classes"] = classes
+
+    # ---- the witness of C16_newline_inside_brackets_refuted on the real parser ----
+    if only_texts is None:
+        w = S.run_impl(["(g(1.0))", "(g\n(1.0))"])
+        ok = bool(w[0] and w[1] and w[0].get("ne") == 0 and w[1].get("ne", 0) > 0 and erase_spans(w[0].get("a", "")) != erase_spans(w[1].get("a", "")))
+        cov["newline_witness_reproduces"] = ok
+        if not ok:
+            viol.append(("lowering: the witness of C16_newline_inside_brackets_refuted ((g(1.0)) vs (g<newline>(1.0))) no longer reproduces on the real parser",
+                         replay_obj("newline-witness", "(g\n(1.0))", {"no_input": True, "answers": [{k: v for k, v in (x or {}).items() if k in ("a", "ne")} for x in w]})))
 
     # ---- verdicts ----
     for t in S.killed[:3]:
